@@ -121,7 +121,42 @@ Noise ==
             chan |-> "g", noise |-> TRUE, key |-> "n_syncgen"]}
    ELSE {})
 
+\* ---------------------------------------------------------------- extreme inputs (C03): boundary classes of every field
+\* a name "base#class" is concretised by the harness to the boundary value of that class
+ValT == {"zero", "one", "sub", "max63", "max48", "sec", "secm"}
+ValC == {"min", "max", "neg1", "pos1", "sub1", "nsub1", "zero"}
+X(n, c) == n \o "#" \o c
+LongPath(n) == [i \in 1..n |-> IF i = n THEN 2 ELSE 10 + (i % 240)]
+Extreme ==
+  (IF "x_ann" \in Fam THEN
+     {[e |-> "ann", p |-> p, src |-> Parent, seq |-> env.aseq, g |-> GmP(1), steps |-> n, tp |-> TpP(1), key |-> "x"] : p \in Ports, n \in {254, 255, 65535}}
+     \cup {[e |-> "ann", p |-> p, src |-> Parent, seq |-> env.aseq, g |-> GmP(1), steps |-> 1, tp |-> TpP(1), path |-> LongPath(n), key |-> "x"] : p \in Ports, n \in {1, 127, 128, 129, 200}}
+     \cup {[e |-> "ann", p |-> p, src |-> Parent, seq |-> env.aseq, g |-> GmP(1), steps |-> 1, tp |-> TpP(1), tlvs |-> <<[ty |-> 16384, len |-> n, tag |-> IF n = 0 THEN 0 ELSE 1]>>, key |-> "x"] :
+              p \in Ports, n \in {0, 954, 956, 958, 1200}}
+     \cup {[e |-> "ann", p |-> p, src |-> Parent, seq |-> env.aseq, g |-> GmP(1), steps |-> 1, chan |-> "e", key |-> "x"] : p \in Ports}
+   ELSE {})
+  \cup (IF "x_sync" \in Fam THEN
+     {[e |-> "sync", p |-> P1, src |-> Parent, seq |-> (S0 + 1) % SeqMod, two |-> tw, rx |-> X("t2_1", a), c |-> X("cs_1", b), w1 |-> X("w1_1", a), key |-> "x"] :
+         tw \in BOOLEAN, a \in ValT, b \in ValC}
+     \cup {[e |-> "fup", p |-> P1, src |-> Parent, seq |-> (S0 + 1) % SeqMod, w1 |-> X("w1_1", a), c |-> X("cf_1", b), key |-> "x"] : a \in ValT, b \in ValC}
+     \cup {[e |-> "dresp", p |-> P1, src |-> Parent, seq |-> j - 1, req |-> Own1, w4 |-> X("w4_1", a), c |-> X("cr_1", b), key |-> "x"] : j \in 1..NDelay, a \in ValT, b \in ValC}
+   ELSE {})
+  \cup (IF "x_master" \in Fam THEN
+     {[e |-> "dreq", p |-> P1, src |-> <<7, 1>>, seq |-> 65535, c |-> X("cq_7", b), rx |-> X("tr_7", a), key |-> "x"] : a \in ValT, b \in ValC}
+     \cup {[e |-> "pdreq", p |-> P1, src |-> <<7, 1>>, seq |-> 65535, c |-> X("cp_7", b), rx |-> X("tp_7", a), key |-> "x"] : a \in ValT, b \in ValC}
+   ELSE {})
+  \cup (IF "x_pd" \in Fam THEN
+     {[e |-> "pdresp", p |-> P1, src |-> r, seq |-> j - 1, req |-> Own1, two |-> r = RespA, w2 |-> X("w2_1", a), c |-> X("cr_1", b), rx |-> X("t4_1", a2), key |-> "x"] :
+         j \in {x \in 1..NPd : x <= PdIssued}, r \in {RespA, RespB}, a \in {"zero", "max48"}, a2 \in {"zero", "max63", "sub"}, b \in {"min", "max", "zero"}}
+     \cup {[e |-> "pdfup", p |-> P1, src |-> RespA, seq |-> j - 1, req |-> Own1, w3 |-> X("w3_1", a), c |-> X("cf_1", b), key |-> "x"] :
+         j \in {x \in 1..NPd : x <= PdIssued}, a \in {"zero", "max48"}, b \in {"min", "max", "zero"}}
+   ELSE {})
+  \cup (IF "x_ts" \in Fam THEN
+     UNION {{[e |-> "ts", p |-> p, c |-> i, t |-> X("tS_1", a), key |-> "ts"] : i \in {x \in 1..Len(st.ctx[p]) : st.ctx[p][x].k # "used"}, a \in ValT} : p \in Ports}
+   ELSE {})
+
 Events ==
+  Extreme \cup
   (IF "annP" \in Fam THEN {AnnP(p, env.aseq, v) @@ [key |-> "annP"] : p \in Ports, v \in AnnVar} ELSE {})
   \cup (IF "annO" \in Fam THEN {AnnO(p, env.oseq) @@ [key |-> "annO"] : p \in Ports} ELSE {})
   \cup (IF "bmca" \in Fam THEN {[e |-> "bmca", key |-> "bmca"]} ELSE {})
@@ -141,12 +176,12 @@ Events ==
 \* bounds on repetitions: a delay/peer-delay timer may fire NDelay / NPd times, everything keyed at most MaxRep times
 Allowed(ev) ==
   /\ (ev.e = "t" /\ ev.k = "dreq") => (IF PCfg[ev.p].p2p THEN st.nseq[ev.p].pdreq < NPd ELSE st.nseq[ev.p].dreq < NDelay)
-  /\ ev.key \notin {"ts", "bmca", "tann", "tsync", "trcpt", "tfilt", "tdreq", "so", "q", "annP", "annO"} => May(ev.key)
+  /\ ev.key \notin {"ts", "bmca", "tann", "tsync", "trcpt", "tfilt", "tdreq", "so", "q", "annP", "annO", "x"} => May(ev.key)
 
 EnvStep(ev) ==
-  [env EXCEPT !.cnt = IF ev.key \in {"ts", "bmca", "tann", "tsync", "trcpt", "tfilt", "tdreq", "so", "q", "annP", "annO"} THEN @
+  [env EXCEPT !.cnt = IF ev.key \in {"ts", "bmca", "tann", "tsync", "trcpt", "tfilt", "tdreq", "so", "q", "annP", "annO", "x"} THEN @
                       ELSE [k \in (DOMAIN @) \cup {ev.key} |-> IF k = ev.key THEN Cnt(k) + 1 ELSE @[k]],
-              !.aseq = IF ev.key = "annP" THEN (@ + 1) % SeqMod ELSE @,
+              !.aseq = IF ev.key = "annP" \/ (ev.key = "x" /\ ev.e = "ann") THEN (@ + 1) % SeqMod ELSE @,
               !.oseq = IF ev.key = "annO" THEN (@ + 1) % SeqMod ELSE @]
 
 Strip(ev) == [k \in (DOMAIN ev) \ {"key"} |-> ev[k]]
